@@ -370,3 +370,165 @@ theorem f_groups (f : Filter) (groups : List Elem) (gids : List String) (h : noT
   | ok r => simp [Except.bind, Except.map, frun]
 
 end Pyham.Sax
+
+/-! ### the whole document -/
+namespace Pyham.Sax
+
+theorem drun_cons (T : STree) (nm : Naming) (keep : String → Bool) (flt : HogFilter) (e : DocEv) (es : List DocEv) (d : DS) :
+    drun T nm keep flt (e :: es) d = (dstep T nm keep flt d e).bind fun d' => drun T nm keep flt es d' := by
+  simp only [drun, bind]
+
+/-- the <gene> elements of one species -/
+theorem drun_genes (T : STree) (nm : Naming) (keep : String → Bool) (flt : HogFilter) (name : String) (p : Taxon) :
+    (gs : List GeneDecl) → (G : List GeneRec) → (S : List (String × Taxon)) → (M : MS) → (rest : List DocEv) →
+    drun T nm keep flt (gs.map .gene ++ rest) { cur := some (name, p), genes := G, species := S, ms := M } =
+      drun T nm keep flt rest { cur := some (name, p), genes := G ++ (gs.filter fun g => keep g.id).map (fun g =>
+        ({ id := g.id, species := name, tx := p, xrefs := g.xrefs } : GeneRec)), species := S, ms := M }
+  | [], G, S, M, rest => by simp
+  | g :: gs, G, S, M, rest => by
+    simp only [List.map_cons, List.cons_append, drun_cons, dstep]
+    by_cases hk : keep g.id = true
+    · simp only [hk, if_true, Except.bind]
+      rw [drun_genes T nm keep flt name p gs _ S M rest]
+      simp [List.filter_cons, hk]
+    · have hk' : keep g.id = false := by simpa using hk
+      simp only [hk', Bool.false_eq_true, if_false, Except.bind]
+      rw [drun_genes T nm keep flt name p gs G S M rest]
+      simp [List.filter_cons, hk']
+
+/-- the species the document declares, with the leaves they resolve to -/
+def resolved (T : STree) (nm : Naming) : List Species → List (String × Taxon)
+  | [] => []
+  | s :: ss => (match resolveSpecies T nm s.name with | .ok p => [(s.name, p)] | .error _ => []) ++ resolved T nm ss
+
+/-- the species sections: the declarations of `declareSpecies`, in file order -/
+theorem drun_species (T : STree) (nm : Naming) (keep : String → Bool) (flt : HogFilter) :
+    (ss : List Species) → (G : List GeneRec) → (S : List (String × Taxon)) → (M : MS) → (rest : List DocEv) →
+    drun T nm keep flt (spEvents ss ++ rest) { cur := none, genes := G, species := S, ms := M } =
+      (declareSpecies T nm keep ss G).bind fun genes =>
+        drun T nm keep flt rest { cur := none, genes := genes, species := S ++ resolved T nm ss, ms := M }
+  | [], G, S, M, rest => by simp [spEvents, declareSpecies, resolved, Except.bind]
+  | s :: ss, G, S, M, rest => by
+    simp only [spEvents, List.cons_append, List.append_assoc, drun_cons, dstep, declareSpecies, bind, resolved]
+    cases hr : resolveSpecies T nm s.name with
+    | error e => simp [Except.bind]
+    | ok p =>
+      simp only [Except.bind]
+      rw [drun_genes T nm keep flt s.name p s.genes]
+      simp only [List.cons_append, List.nil_append, drun_cons, dstep, Except.bind]
+      rw [drun_species T nm keep flt ss]
+      simp only [List.append_assoc, List.cons_append, List.nil_append]
+      cases declareSpecies T nm keep ss (G ++ (s.genes.filter fun g => keep g.id).map fun g =>
+          ({ id := g.id, species := s.name, tx := p, xrefs := g.xrefs } : GeneRec)) <;> rfl
+
+/-- the groups section: the declarations do not change, so the environment is fixed -/
+theorem drun_groups (T : STree) (nm : Naming) (keep : String → Bool) (flt : HogFilter) :
+    (es : List Ev) → (c : Option (String × Taxon)) → (G : List GeneRec) → (S : List (String × Taxon)) → (M : MS) → (rest : List DocEv) →
+    drun T nm keep flt (es.map .grp ++ rest) { cur := c, genes := G, species := S, ms := M } =
+      (runEvents { T := T, nm := nm, geneTx := G.reverse.map fun g => (g.id, g.tx) } flt es M).bind fun ms =>
+        drun T nm keep flt rest { cur := c, genes := G, species := S, ms := ms }
+  | [], c, G, S, M, rest => by simp [runEvents, Except.bind]
+  | e :: es, c, G, S, M, rest => by
+    simp only [List.map_cons, List.cons_append, drun_cons, dstep, runEvents, bind, DS.env]
+    cases hs : step { T := T, nm := nm, geneTx := G.reverse.map fun g => (g.id, g.tx) } flt M e with
+    | error err => simp [Except.bind]
+    | ok ms =>
+      simp only [Except.bind]
+      exact drun_groups T nm keep flt es c G S ms rest
+
+theorem declared_resolved (T : STree) (nm : Naming) (keep : String → Bool) :
+    (ss : List Species) → (acc genes : List GeneRec) → declareSpecies T nm keep ss acc = .ok genes →
+    ss.mapM (fun s => (resolveSpecies T nm s.name).map fun p => (s.name, p)) = .ok (resolved T nm ss)
+  | [], acc, genes, _ => by simp [resolved, pure, Except.pure]
+  | s :: ss, acc, genes, h => by
+    simp only [declareSpecies, bind] at h
+    cases hr : resolveSpecies T nm s.name with
+    | error e => rw [hr] at h; simp [Except.bind] at h
+    | ok p =>
+      rw [hr] at h
+      simp only [Except.bind] at h
+      have ih := declared_resolved T nm keep ss _ genes h
+      simp only [List.mapM_cons, hr, Except.map, bind, Except.bind, resolved, pure, Except.pure, List.singleton_append] at ih ⊢
+      rw [ih]
+
+theorem dstates_end (T : STree) (nm : Naming) (keep : String → Bool) (flt : HogFilter) (es : List DocEv) (d : DS) :
+    (dstates T nm keep flt es d).2 = (match drun T nm keep flt es d with | .ok _ => none | .error e => some e) := by
+  induction es generalizing d with
+  | nil => simp [dstates, drun]
+  | cons e es ih =>
+    simp only [dstates, drun, bind]
+    cases h : dstep T nm keep flt d e with
+    | error err => simp [Except.bind]
+    | ok d' => simp only [Except.bind]; exact ih d'
+
+/-- **the document machine is the load**: every declaration and every call in the order of the file (species sections, then
+    the groups section), each geneRef resolved against the declarations read so far, ends in the analysis `buildHam` returns
+    (any filter), or fails with the same exception -/
+theorem doc_machine_is_load (T : STree) (nm : Naming) (inp : Input) (keep : String → Bool) (flt : HogFilter) :
+    (drun T nm keep flt (spEvents inp.species ++ (eventsL inp.groups).map .grp) {}).map (DS.ham T nm) =
+      buildHam T nm inp keep flt := by
+  have e0 : ({} : DS) = { cur := none, genes := [], species := [], ms := {} } := rfl
+  rw [e0, drun_species T nm keep flt inp.species [] [] {} ((eventsL inp.groups).map .grp)]
+  unfold buildHam
+  simp only [bind]
+  cases hd : declareSpecies T nm keep inp.species [] with
+  | error e => simp [Except.bind, Except.map]
+  | ok genes =>
+    simp only [Except.bind]
+    have h2 := drun_groups T nm keep flt (eventsL inp.groups) none genes ([] ++ resolved T nm inp.species) {} []
+    simp only [List.append_nil] at h2
+    rw [h2, sax_groups]
+    cases ht : topElems { T := T, nm := nm, geneTx := genes.reverse.map fun g => (g.id, g.tx) } flt inp.groups [] {} with
+    | error e => simp [Except.bind, Except.map]
+    | ok r =>
+      have hm := declared_resolved T nm keep inp.species [] genes hd
+      simp only [Except.map] at hm
+      simp only [Except.bind, Except.map, drun, hm, DS.ham, List.nil_append]
+
+/-! ### the first pass over the whole document -/
+
+theorem fdrun_cons (f : Filter) (e : DocEv) (es : List DocEv) (s : FS) :
+    fdrun f (e :: es) s = (fdstep f s e).bind fun s' => fdrun f es s' := by
+  simp only [fdrun, bind]
+
+theorem fdrun_genes (f : Filter) : (gs : List GeneDecl) → (s : FS) → (rest : List DocEv) →
+    fdrun f (gs.map .gene ++ rest) s = fdrun f rest { s with gids := s.gids ++ gs.flatMap (geneSel f) }
+  | [], s, rest => by simp
+  | g :: gs, s, rest => by
+    simp only [List.map_cons, List.cons_append, fdrun_cons, fdstep, Except.bind]
+    rw [fdrun_genes f gs _ rest]
+    simp [List.flatMap_cons]
+
+theorem filterGenes_eq (f : Filter) (sp : List Species) :
+    filterGenes f sp = sp.flatMap fun s => s.genes.flatMap (geneSel f) := by
+  unfold filterGenes
+  congr 1
+
+theorem fdrun_species (f : Filter) : (ss : List Species) → (s : FS) → (rest : List DocEv) →
+    fdrun f (spEvents ss ++ rest) s = fdrun f rest { s with gids := s.gids ++ filterGenes f ss }
+  | [], s, rest => by simp [spEvents, filterGenes]
+  | sp :: ss, s, rest => by
+    simp only [spEvents, List.cons_append, List.append_assoc, fdrun_cons, fdstep, Except.bind]
+    rw [fdrun_genes f sp.genes s]
+    simp only [List.cons_append, List.nil_append, fdrun_cons, fdstep, Except.bind]
+    rw [fdrun_species f ss _ rest]
+    simp [filterGenes_eq, List.flatMap_cons]
+
+theorem fdrun_groups (f : Filter) : (es : List Ev) → (s : FS) →
+    fdrun f (es.map .grp) s = frun f es s
+  | [], s => by simp [fdrun, frun]
+  | e :: es, s => by
+    simp only [List.map_cons, fdrun, fdstep, frun, bind]
+    cases fstep f s e with
+    | error err => rfl
+    | ok s' => simp only [Except.bind]; exact fdrun_groups f es s'
+
+/-- the first pass over the whole document (species sections, then groups) selects what the recursive first pass selects -/
+theorem f_document (f : Filter) (inp : Input) (h : noTopRefL inp.groups = true) :
+    fdrun f (spEvents inp.species ++ (eventsL inp.groups).map .grp) { gids := [] } =
+      (filterTops f inp.groups (filterGenes f inp.species, [])).map fun r => { gids := r.1, hids := r.2 } := by
+  rw [fdrun_species, fdrun_groups]
+  simp only [List.nil_append]
+  exact f_groups f inp.groups (filterGenes f inp.species) h
+
+end Pyham.Sax
